@@ -11,8 +11,12 @@ import (
 	"math/big"
 	"os"
 	"path/filepath"
+	"time"
 	"unsafe"
 
+	"github.com/piotrnar/gocoin/client/common"
+	"github.com/piotrnar/gocoin/client/mainlib"
+	"github.com/piotrnar/gocoin/client/network"
 	"github.com/piotrnar/gocoin/lib/btc"
 	"github.com/piotrnar/gocoin/lib/chain"
 	"github.com/piotrnar/gocoin/lib/others/memory"
@@ -43,6 +47,7 @@ type Node struct {
 	Opts  NodeOpts
 	Alloc *memory.Allocator
 	ballast []*[]byte
+	ParseTillLeft bool // the client's start-up replay ended without reaching its goal (the client keeps the network on hold then)
 }
 
 // freshProcess restores the package-level state a new OS process starts with.
@@ -111,7 +116,7 @@ func Boot(dir string, o NodeOpts) *Node {
 	end, _ := ch.BlockTreeRoot.FindFarthestNode()
 	if end.Height > ch.LastBlock().Height && end.MorePOW(ch.LastBlock()) { // (as both start-up paths do since fix 2d235d92: more work, not just longer)
 		if o.ClientRecovery {
-			n.doTheBlocks(end)
+			n.clientReplay(end)
 		} else {
 			ch.MoveToBlock(end) // as the tail of NewChainExt does (after fix 8: MoveToBlock, not ParseTillBlock)
 		}
@@ -119,7 +124,72 @@ func Boot(dir string, o NodeOpts) *Node {
 	return n
 }
 
+// clientReplay is the client's own start-up replay of blocks stored beyond the snapshot, run with the real
+// code of client/main.go (made importable as client/mainlib in the scratch copy): init.go sets
+// common.Last.ParseTill, main() starts "go do_the_blocks(ParseTill)" and its main loop hands every queued block
+// to HandleNetBlock (-> LocalAcceptBlock -> CommitBlock, retry_cached_blocks).  Only the loop around the block
+// channel is the harness's; the network tick stays held while ParseTill is set, as in the client.
+func (n *Node) clientReplay(end *chain.BlockTreeNode) {
+	ch := n.Ch
+	common.BlockChain = ch
+	common.GocoinHomeDir = n.Dir
+	common.CFG.Memory.MaxCachedBlks = 200
+	common.CFG.Stat.BSizeBlks = 1008
+	common.BlockChainSynchronized.Store(false)
+	common.RecalcAverageBlockSize() // main() does this before anything else touches the chain
+	common.Last.Mutex.Lock()
+	common.Last.Block = ch.LastBlock()
+	common.Last.ParseTill = end
+	common.Last.Mutex.Unlock()
+	network.MutexRcv.Lock()
+	network.ReceivedBlocks = map[btc.BIDX]*network.OneReceivedBlock{}
+	network.BlocksToGet = map[btc.BIDX]*network.OneBlockToGet{}
+	network.BlocksToGetFailed = map[btc.BIDX]struct{}{}
+	network.IndexToBlocksToGet = map[uint32][]btc.BIDX{}
+	network.DiscardedBlocks = map[btc.BIDX]bool{}
+	network.LowestIndexToBlocksToGet.Store(0)
+	ch.BlockIndexAccess.Lock()
+	for k, v := range ch.BlockIndex {
+		network.ReceivedBlocks[k] = &network.OneReceivedBlock{TmStart: time.Unix(int64(v.Timestamp()), 0)}
+	}
+	ch.BlockIndexAccess.Unlock()
+	network.LastCommitedHeader = end
+	network.MutexRcv.Unlock()
+	network.CachedBlocksMutex.Lock()
+	network.CachedBlocksIdx = map[uint32][]*network.BlockRcvd{}
+	network.CachedMinHeight, network.CachedMaxHeight = 0, 0
+	network.CachedBlocksMutex.Unlock()
+	network.NetBlocks = make(chan *network.BlockRcvd, 512)
+	mainlib.ResetForSim()
+	queued := false
+	simrt.Go(func() {
+		mainlib.DoTheBlocks(end)
+		queued = true
+	})
+	for idle := 0; ; {
+		mainlib.MainLoopRetry()
+		if len(network.NetBlocks) > 0 {
+			mainlib.HandleNetBlock(simrt.Recv(network.NetBlocks))
+			idle = 0
+			continue
+		}
+		common.Last.Mutex.Lock()
+		goal := common.Last.ParseTill
+		common.Last.Mutex.Unlock()
+		if goal == nil || (queued && idle >= 3) {
+			break // reached (or given up by the client), or nothing has been queued for three main-loop seconds
+		}
+		simrt.Sleep(time.Second) // the main loop's one-second tick; a replay goroutine started meanwhile gets its turn
+		idle++
+	}
+	common.Last.Mutex.Lock()
+	n.ParseTillLeft = common.Last.ParseTill != nil
+	common.Last.ParseTill = nil
+	common.Last.Mutex.Unlock()
+}
+
 // doTheBlocks re-states client/main.go:do_the_blocks + LocalAcceptBlock (the parts that touch the chain).
+// (kept for reference; the client path now runs the real code, see clientReplay)
 func (n *Node) doTheBlocks(end *chain.BlockTreeNode) {
 	ch := n.Ch
 	last := ch.LastBlock()
